@@ -188,14 +188,14 @@ func VerifC07(nFull, nThin, async, second int) {
 		if bgArrived != nil && bgArrived.st.isBroken {
 			// written, never answered, and the stream it went out on has failed
 			vReach("second-call-on-broken-stream")
-			vAssert(bgReturned, "C07.waiting-call-not-completed-when-connection-breaks")
+			vAssert(bgReturned, "C07.waiting-call-not-completed-when-connection-breaks|C18.call-state-kept-after-its-node-failed")
 		}
 		if bgReturned {
 			vAssert(bgErr != nil, "C05.reply-for-a-call-nobody-answered")
 		}
 	}
 	// every node has produced an outcome: the call must be complete
-	vAssert(g.returned, "C07.call-left-waiting")
+	vAssert(g.returned, "C07.call-left-waiting|C18.call-state-kept-after-every-node-answered-or-failed")
 	if healthy >= q {
 		vReach("minority-failure-tolerated")
 		vAssert(g.err == nil, "C07.minority-failure-not-tolerated")
